@@ -1,6 +1,21 @@
 /-
-  C14, inline half, widened: delimiter runs that can close (or open) emphasis are allowed as long as
-  no opener run is followed later by a closer run of the same character.
+  C14, inline half, widened.  `Proofs/InertInline.lean` proves that text satisfying `inertBody` yields
+  no span-token candidate.  That condition forbids every delimiter run that can close emphasis, every
+  `]` after a `[`, every `&…;` and every `<` before a letter, digit or ``.!#$%&'*+/=?^_`{|}~-``.
+  Here the condition is weakened to `inertBody2` (any table of link definitions) and `inertBody3`
+  (empty table, which is what a document of inert paragraphs has):
+
+  * `*` / `_` (`emphOk2`): runs may open or close emphasis provided no run that can open is followed
+    later by a run of the same character that can close.  Then `process_emphasis` finds no match:
+    `matching_opener` finds no opener for any closer (`processEmphasis_nopair`).
+  * `&` (`ampOk2`): a `&` may begin something the Markdown character-reference regex matches as long as
+    `html.unescape` replaces it by itself (`&foo;`, `&é;`), and `&;`, `&#;`, `&#x;`, `&#12345678;` (no match).
+  * `<` (`ltOk2`): `<` may be followed by a digit or one of ``.#$%&'*+=^_`{|}~-`` when the run of e-mail
+    local-part characters there is not followed by `@` (`<=`, `<3`, `<-`).
+  * brackets (`inertBody3` only, `brOkG false`): a `]` after a `[` is allowed when neither `(` nor `[`
+    follows it directly; with an empty definitions table `match_link_image` fails.
+
+  End to end: `C14_prose_text2`, `C14_prose_text3` (namespace `Mistletoe.Props.C14`, end of the file).
 -/
 import Mistletoe.Proofs.InertInline
 import Mistletoe.Proofs.EmphSpec
@@ -139,6 +154,140 @@ def brOkG (strict : Bool) : Bool → Str → Bool
   | seen, c :: rest =>
     (c != ']' || !seen || (!strict && rest.head? != some '(' && rest.head? != some '[')) &&
       brOkG strict (seen || c == '[') rest
+
+/-! ### `<` -/
+
+/-- after a `<`: the end of the text, or a character that is not an ASCII letter, `/`, `!`, `?` (no
+    HTML tag, comment, declaration, instruction, no URI autolink) such that the run of e-mail
+    local-part characters starting there is empty or not followed by `@` (no e-mail autolink):
+    `<=`, `<3`, `<-`, `<$` are allowed -/
+def ltNext2 : Str → Bool
+  | [] => true
+  | d :: r => !isAlpha d && d != '/' && d != '!' && d != '?' &&
+      (!localChar d || (span localChar (d :: r)).2.head? != some '@')
+
+def ltOk2 : Str → Bool
+  | [] => true
+  | c :: rest => (c != '<' || ltNext2 rest) && ltOk2 rest
+
+theorem ltNext_ltNext2 (r : Str) (h : ltNext r = true) : ltNext2 r = true := by
+  cases r with
+  | nil => rfl
+  | cons d r =>
+    simp only [ltNext, Bool.not_eq_eq_eq_not, Bool.not_true] at h
+    obtain ⟨ha, h1, h2, h3⟩ := localChar_of d h
+    simp [ltNext2, ha, h1, h2, h3, h]
+
+theorem ltOk_ltOk2 : ∀ (s : Str), ltOk s = true → ltOk2 s = true
+  | [], _ => rfl
+  | c :: rest, h => by
+    simp only [ltOk, Bool.and_eq_true, Bool.or_eq_true] at h
+    simp only [ltOk2, Bool.and_eq_true, Bool.or_eq_true]
+    exact ⟨h.1.imp id (ltNext_ltNext2 rest), ltOk_ltOk2 rest h.2⟩
+
+theorem ltNext2_of (d : Char) (r : Str) (h : ltNext2 (d :: r) = true) :
+    isAlpha d = false ∧ d ≠ '/' ∧ d ≠ '!' ∧ d ≠ '?' ∧
+      (localChar d = false ∨ (span localChar (d :: r)).2.head? ≠ some '@') := by
+  simpa [ltNext2, and_assoc] using h
+
+theorem autoLinkBody_none2 (r : Str) (h : ltNext2 r = true) : autoLinkBody r = none := by
+  cases r with
+  | nil => simp [autoLinkBody, span]
+  | cons d r1 =>
+    obtain ⟨ha, _, _, _, h5⟩ := ltNext2_of d r1 h
+    unfold autoLinkBody
+    simp only [ha, Bool.not_false, if_true]
+    rcases h5 with h5 | h5
+    · simp [span, h5]
+    · split
+      · rfl
+      · split
+        · rename_i heq
+          rw [heq] at h5
+          simp at h5
+        · rfl
+
+theorem autoLinkAt_none2 (prev : Option Char) (c : Char) (rest : Str) (hc : c ≠ '\\')
+    (hl : (c != '<' || ltNext2 rest) = true) :
+    autoLinkAt prev (c :: rest) = none := by
+  unfold autoLinkAt
+  split
+  · rfl
+  · simp only [leadingBackslashes, countLeading_ne _ _ _ hc, List.drop_zero]
+    split
+    · rfl
+    · split
+      · rename_i heq
+        simp only [List.cons.injEq] at heq
+        obtain ⟨rfl, rfl⟩ := heq
+        simp only [bne_self_eq_false, Bool.false_or] at hl
+        rw [autoLinkBody_none2 _ hl]
+      · rfl
+
+theorem htmlSpanAt_none2 (prev : Option Char) (c : Char) (rest : Str)
+    (hl : (c != '<' || ltNext2 rest) = true) : htmlSpanAt prev (c :: rest) = none := by
+  have e4 : "<!--".toList = ['<', '!', '-', '-'] := by decide
+  have e8 : "<![CDATA".toList = ['<', '!', '[', 'C', 'D', 'A', 'T', 'A'] := by decide
+  unfold htmlSpanAt
+  split
+  · rfl
+  · by_cases hc : c = '<'
+    · subst hc
+      simp only [bne_self_eq_false, Bool.false_or] at hl
+      cases rest with
+      | nil => simp [openTag, closingTag, commentAt, instructionAt, declarationAt, cdataAt, startsWith, e4, e8]
+      | cons d r =>
+        obtain ⟨ha, h1, h2, h3, _⟩ := ltNext2_of d r hl
+        simp [openTag, closingTag, commentAt, instructionAt, declarationAt, cdataAt, startsWith, e4, e8, ha, h1, h2, h3,
+          Block.isPrefix_ne '!' d _ r h2]
+    · simp [openTag, closingTag, commentAt, instructionAt, declarationAt, cdataAt, startsWith, e4, e8, hc,
+        Block.isPrefix_ne '<' c _ rest hc]
+
+/-- what the regex scanners need of the text (widened `<` condition) -/
+structure ScanOk2 (s : Str) : Prop where
+  ok : ∀ c ∈ s, c ≠ '\\' ∧ c ≠ '`'
+  lt : ltOk2 s = true
+  tilde : tildeOk s = true
+
+theorem ScanOk2.tail {c : Char} {rest : Str} (h : ScanOk2 (c :: rest)) : ScanOk2 rest := by
+  obtain ⟨h1, h2, h3⟩ := h
+  simp only [ltOk2, tildeOk, Bool.and_eq_true] at h2 h3
+  exact ⟨fun x hx => h1 x (List.mem_cons_of_mem _ hx), h2.2, h3.2⟩
+
+theorem ScanOk2.head_lt {c : Char} {rest : Str} (h : ScanOk2 (c :: rest)) : (c != '<' || ltNext2 rest) = true := by
+  have := h.lt
+  simp only [ltOk2, Bool.and_eq_true] at this
+  exact this.1
+
+theorem ScanOk2.head_tilde {c : Char} {rest : Str} (h : ScanOk2 (c :: rest)) : (c == '~' && rest.head? == some '~') = false := by
+  have := h.tilde
+  simp only [tildeOk, Bool.and_eq_true, Bool.not_eq_eq_eq_not, Bool.not_true] at this
+  exact this.1
+
+theorem findOne_scan2 (s : Str) (h : ScanOk2 s) (t : STok) (ht : inertClass t = true) (hlb : t ≠ .lineBreak) :
+    findOne s [] [] t = [] := by
+  cases t with
+  | escapeSequence =>
+    simp only [findOne, List.map_eq_nil_iff]
+    exact findIter_nil _ ScanOk2 (fun _ _ => ScanOk2.tail) (fun p c r hq => escapeAt_none p c r (hq.ok c (by simp)).1) s h
+  | htmlSpan =>
+    simp only [findOne, List.map_eq_nil_iff]
+    exact findIter_nil _ ScanOk2 (fun _ _ => ScanOk2.tail) (fun p c r hq => htmlSpanAt_none2 p c r hq.head_lt) s h
+  | strikethrough =>
+    simp only [findOne, List.map_eq_nil_iff]
+    exact findIter_nil _ ScanOk2 (fun _ _ => ScanOk2.tail)
+      (fun p c r hq => strikeAt_none p c r (hq.ok c (by simp)).1 hq.head_tilde) s h
+  | autoLink =>
+    simp only [findOne, List.map_eq_nil_iff]
+    exact findIter_nil _ ScanOk2 (fun _ _ => ScanOk2.tail)
+      (fun p c r hq => autoLinkAt_none2 p c r (hq.ok c (by simp)).1 hq.head_lt) s h
+  | coreTokens => rfl
+  | inlineCode => rfl
+  | lineBreak => exact absurd rfl hlb
+  | math => cases ht
+  | githubWiki => cases ht
+  | xwikiMacroStart => rfl
+  | xwikiMacroEnd => rfl
 
 /-! ### `&` -/
 
@@ -324,12 +473,14 @@ theorem ampOk2_lines : ∀ (ts : List Str), ampOk2 (joinNl ts) = true → ∀ t 
 
 /-- inert text, widened (`strict = true`: any table of link definitions; `false`: the empty table) -/
 def inertBodyG (strict : Bool) (s : Str) : Bool :=
-  s.all okChar && ltOk s && ampOk2 s && tildeOk s && brOkG strict false s && emphOk2 false false ' ' s
+  s.all okChar && ltOk2 s && ampOk2 s && tildeOk s && brOkG strict false s && emphOk2 false false ' ' s
 
-/-- **the widened inline condition**: as `inertBody`, but runs of `*` / `_` may open or close emphasis
-    as long as no run that can open is followed later by a run of the same character that can close -/
+/-- **the widened inline condition**: no backslash, no backquote; `<` not before a tag / autolink start
+    (`ltOk2`); no `&` that `html.unescape` would change (`ampOk2`); no `~~`; no `]` after the first `[`
+    (`bracketsOk`); runs of `*` / `_` may open or close emphasis as long as no run that can open is
+    followed later by a run of the same character that can close (`emphOk2`) -/
 def inertBody2 (s : Str) : Bool :=
-  s.all okChar && ltOk s && ampOk2 s && tildeOk s && bracketsOk s && emphOk2 false false ' ' s
+  s.all okChar && ltOk2 s && ampOk2 s && tildeOk s && bracketsOk s && emphOk2 false false ' ' s
 
 /-- widened further, for an empty table of link definitions: `]` after `[` is allowed when it is
     followed directly by neither `(` nor `[` -/
@@ -377,7 +528,8 @@ theorem inertBody2_inertBodyG (strict : Bool) (s : Str) (h : inertBody2 s = true
 theorem inertBody_inertBody2 (s : Str) (h : inertBody s = true) : inertBody2 s = true := by
   simp only [inertBody, Bool.and_eq_true] at h
   simp only [inertBody2, Bool.and_eq_true]
-  exact ⟨⟨⟨⟨h.1.1.1.1, ampOk_ampOk2 s h.1.1.1.2⟩, h.1.1.2⟩, h.1.2⟩, emphOk_emphOk2 s _ _ _ h.2⟩
+  obtain ⟨⟨⟨⟨⟨h1, h2⟩, h3⟩, h4⟩, h5⟩, h6⟩ := h
+  exact ⟨⟨⟨⟨⟨h1, ltOk_ltOk2 s h2⟩, ampOk_ampOk2 s h3⟩, h4⟩, h5⟩, emphOk_emphOk2 s _ _ _ h6⟩
 
 theorem inertBody2_inertBody3 (s : Str) (h : inertBody2 s = true) : inertBody3 s = true :=
   inertBody2_inertBodyG false s h
@@ -589,7 +741,6 @@ theorem close_bracket (strict : Bool) (s : Str) (fn : Footnotes.Table) (pre rest
     rw [hs]
     exact ⟨hfn h1, follows_at pre ']' rest '(' h2, follows_at pre ']' rest '[' h3⟩
 
-set_option maxHeartbeats 400000 in
 theorem coreLoop_step2 (strict : Bool) (s : Str) (fn : Footnotes.Table) (pre : Str) (c : Char) (rest : Str) (st : FState)
     (so su seen : Bool) (hs : s = pre ++ c :: rest) (hc : c ≠ '\\') (hbt : '`' ∉ s) (hfn : strict = false → fn = [])
     (inv : Inv2 strict s pre (c :: rest) so su seen st) (fuel : Nat) :
@@ -854,14 +1005,14 @@ theorem findAll_core_gen (s : Str) (types : List STok) (fn : Footnotes.Table)
   · rfl
 
 theorem findAll_gen (s : Str) (types : List STok) (fn : Footnotes.Table) (ht : ∀ t ∈ types, inertClass t = true)
-    (hs : ScanOk s) (hcore : findCoreTokens s fn = .ok ([], [])) (hnl : '\n' ∉ s) : findAll s types fn = .ok [] := by
+    (hs : ScanOk2 s) (hcore : findCoreTokens s fn = .ok ([], [])) (hnl : '\n' ∉ s) : findAll s types fn = .ok [] := by
   rw [findAll_core_gen s types fn hcore]
   congr 1
   rw [List.flatMap_eq_nil_iff]
   intro t htm
   by_cases hlb : t = .lineBreak
   · subst hlb; exact findOne_lineBreak s hnl
-  · exact findOne_inertBody s hs t (ht t htm) hlb
+  · exact findOne_scan2 s hs t (ht t htm) hlb
 
 open Mistletoe.Document in
 theorem builds_lines_gen (s : Str) (found : List Found) (cls : Nat) : ∀ (ts : List Str) (pre : Str) (k : Nat),
@@ -917,11 +1068,11 @@ open Mistletoe.Document in
     `RawText` holding exactly the line, with a soft `LineBreak` between consecutive lines -/
 theorem tokenizeInner_lines_gen (types : List STok) (fn : Footnotes.Table) (ts : List Str)
     (ht : ∀ t ∈ types, inertClass t = true) (hc : types.count .lineBreak = 1) (hne : ts ≠ [])
-    (hl : ∀ t ∈ ts, LineOk t) (hs : ScanOk (joinNl ts)) (hcore : findCoreTokens (joinNl ts) fn = .ok ([], []))
+    (hl : ∀ t ∈ ts, LineOk t) (hs : ScanOk2 (joinNl ts)) (hcore : findCoreTokens (joinNl ts) fn = .ok ([], []))
     (hun : ∀ t ∈ ts, Unescape.unescape true t = t) :
     tokenizeInner types fn (joinNl ts) = .ok (proseInlines ts) := by
   have hfm : types.flatMap (findOne (joinNl ts) [] []) = (nlMatches 0 ts).map (ofRe .lineBreak true) := by
-    rw [flatMap_one _ .lineBreak types (fun t htm hne => findOne_inertBody _ hs t (ht t htm) hne) hc]
+    rw [flatMap_one _ .lineBreak types (fun t htm hne => findOne_scan2 _ hs t (ht t htm) hne) hc]
     simp only [findOne, findIter_joinNl ts hl]
   unfold tokenizeInner
   rw [findAll_core_gen _ _ _ hcore, hfm]
@@ -950,7 +1101,7 @@ theorem tokenizeInner_lines_gen (types : List STok) (fn : Footnotes.Table) (ts :
 /-! ## the widened predicates: no candidate, one RawText per line -/
 
 theorem inertBodyG_parts (strict : Bool) (s : Str) (h : inertBodyG strict s = true) :
-    ScanOk s ∧ ampOk2 s = true ∧ brOkG strict false s = true ∧ emphOk2 false false ' ' s = true := by
+    ScanOk2 s ∧ ampOk2 s = true ∧ brOkG strict false s = true ∧ emphOk2 false false ' ' s = true := by
   simp only [inertBodyG, Bool.and_eq_true, List.all_eq_true] at h
   obtain ⟨⟨⟨⟨⟨h1, h2⟩, h3⟩, h4⟩, h5⟩, h6⟩ := h
   refine ⟨⟨?_, h2, h4⟩, h3, h5, h6⟩
@@ -1156,8 +1307,9 @@ theorem C14_prose_text3 (cfg : Document.Cfg) (hpar : .paragraph ∈ cfg.block.ty
 /-- accepted by `inertBody2`, rejected by `inertBody`: runs that can close but have no opener before
     them (`a*`, `b_`, `foo_`, `2*`, `3*`), a closer followed by an opener (`a* *b`), `&` sequences that
     `html.unescape` leaves alone -/
-example : [L "a* b_ c", L "foo_ bar", L "2* 3* x", L "a* *b and x_ _y", L "&foo; &; &#; &#x; &#12345678; &é;"].map
-    (fun s => (inertBody2 s, inertBody s)) = List.replicate 5 (true, false) := by decide +kernel
+example : [L "a* b_ c", L "foo_ bar", L "2* 3* x", L "a* *b and x_ _y", L "&foo; &; &#; &#x; &#12345678; &é;",
+    L "a <= b <3 <- <$ x <@ y"].map
+    (fun s => (inertBody2 s, inertBody s)) = List.replicate 6 (true, false) := by decide +kernel
 
 /-- accepted by `inertBody3` only: bracket pairs that are not links -/
 example : [L "[a] b", L "[x] [y]", L "a [b] c] d ![i] e"].map (fun s => (inertBody3 s, inertBody2 s)) =
@@ -1165,8 +1317,9 @@ example : [L "[a] b", L "[x] [y]", L "a [b] c] d ![i] e"].map (fun s => (inertBo
 
 /-- the predicates are not trivially true.  `2*3* x` is rejected: the first `*` (between `2` and `3`)
     can open, the second can close — and it does become emphasis, in the model and in mistletoe -/
-example : [L "2*3* x", L "*a*", L "_a b_", L "a *b c* d", L "[a](b)", L "[a][b]", L "&amp;", L "&#35;", L "&notit;", L "a ~~b~~"].map
-    inertBody3 = List.replicate 10 false := by decide +kernel
+example : [L "2*3* x", L "*a*", L "_a b_", L "a *b c* d", L "[a](b)", L "[a][b]", L "&amp;", L "&#35;", L "&notit;", L "a ~~b~~",
+    L "<=x@y.z>", L "<a>", L "a\\b", L "`c`"].map
+    inertBody3 = List.replicate 14 false := by decide +kernel
 
 /-- parse + HTML render of a `str`, by kernel evaluation of the model -/
 def htmlOf (s : Str) : Res Str := (Document.parse cfgHtml 14 s).bind (fun d => .ok (render {} d))
@@ -1176,6 +1329,7 @@ example : htmlOf (L "foo_ bar\n") = .ok (L "<p>foo_ bar</p>\n") := by decide +ke
 example : htmlOf (L "2* 3* x\n") = .ok (L "<p>2* 3* x</p>\n") := by decide +kernel
 example : htmlOf (L "see [a] b, [x] [y]\n") = .ok (L "<p>see [a] b, [x] [y]</p>\n") := by decide +kernel
 example : htmlOf (L "x &foo; &; &#;\n") = .ok (L "<p>x &amp;foo; &amp;; &amp;#;</p>\n") := by decide +kernel
+example : htmlOf (L "a <= b <3\n") = .ok (L "<p>a &lt;= b &lt;3</p>\n") := by decide +kernel
 /-- … whereas this one is markup -/
 example : htmlOf (L "2*3* x\n") = .ok (L "<p>2<em>3</em> x</p>\n") := by decide +kernel
 
